@@ -111,8 +111,12 @@ func main() {
 			if class != "" && len(r.Failures) < 3 {
 				r.Failures = append(r.Failures, Failure{class, detail})
 			}
-			if class == "deadlock" { // leaked goroutines would poison the baseline
-				base = runtime.NumGoroutine()
+			if class == "deadlock" {
+				// blocked or spinning goroutines stay behind and poison everything after: stop here
+				for _, r := range results {
+					enc.Encode(r)
+				}
+				os.Exit(0)
 			}
 		}
 	}
